@@ -49,16 +49,12 @@ def combine_patches(diffs):
 def adjust_patch_level(target_path, common_path, diff):
     n = len(target_path)
     assert common_path[:n] == target_path
-    if n == len(target_path):
+    if n == len(common_path) or not diff:
         return diff
-    remainder_path = tuple(reversed(common_path[n:]))
-    newdiff = []
-    for d in diff:
-        nd = d
-        assert nd is not None
-        for key in remainder_path:
-            nd = op_patch(key, nd)
-        newdiff.append(nd)
+    # Wrap the diff in one patch op per remaining path level, innermost first
+    newdiff = diff
+    for key in reversed(common_path[n:]):
+        newdiff = [op_patch(key, newdiff)]
     return newdiff
 
 
